@@ -1,6 +1,9 @@
 package main
 
-import "strings"
+import (
+	"fmt"
+	"strings"
+)
 
 func init() { registry["C04"] = checkC04 }
 
@@ -137,6 +140,19 @@ func checkC04(e *RunEnv) *CheckResult {
 				ed = append(ed, Delete(set[len(set)-1]), Run("add", arg), Run("add", arg))
 				cs = append(cs, Case{Base: base, BaseName: "S0", BaseSeed: seedS0(), Steps: ed})
 			}
+		}
+		// 250 path arguments in one command
+		{
+			var many []Step
+			var names []string
+			for i := 0; i < 250; i++ {
+				p := fmt.Sprintf("m/f%03d", i)
+				names = append(names, p)
+				many = append(many, Write(p, v1(p)))
+			}
+			many = append(many, Write("m/untracked", "u\n"), Run(append([]string{"add"}, names...)...), Run("commit", "-m", "m"), Write(names[7], v2(names[7])), Delete(names[9]),
+				Run(append([]string{"add"}, names...)...), Run(append([]string{"rm"}, names[10:]...)...), Run(append([]string{"rm"}, names[:9]...)...))
+			cs = append(cs, Case{Base: base, BaseName: "S0", BaseSeed: seedS0(), Steps: many})
 		}
 		sweep = x.RunCases(cs)
 	}, func(x *Explorer, cov map[string]interface{}) {
